@@ -40,7 +40,7 @@ NoCtx == [active |-> FALSE, sid |-> 0, key |-> "", parent |-> AbsentObj, sel |->
           needFreshGet |-> FALSE, wrote |-> FALSE, childReqs |-> 0, atFix |-> FALSE, fresh |-> FALSE,
           prevQuiet |-> FALSE, hookOK |-> FALSE, nonBenign |-> FALSE, hook429 |-> FALSE, childFault |-> FALSE,
           statusConflict |-> FALSE, parentGone |-> FALSE, claimFail |-> FALSE, revWrites |-> 0,
-          hookReq |-> [children |-> <<>>], result |-> "", parentChanged |-> FALSE]
+          hookReq |-> [children |-> <<>>], result |-> "", parentChanged |-> FALSE, parentReqsAfterHook |-> 0]
 
 E      == Trace[l]
 HasE   == l <= N
@@ -444,7 +444,7 @@ C12_OthersProceed ==
             => (Issued(c, "create", k) \/ Report("C12", "C12_OthersProceed", <<"create skipped after another child failed", k>>))
      /\ (IsComposite /\ Lookup(store, ParentKeyOf(c)).live /\ Lookup(store, ParentKeyOf(c)).uid = c.parent.uid
            /\ ~StatusEq(Lookup(store, ParentKeyOf(c)).status, ExpStatus(c)))
-            => (c.statusPuts > 0 \/ c.statusConflict \/ Report("C12", "C12_OthersProceed", <<"status write skipped after a child failed">>))
+            => (c.parentReqsAfterHook > 0 \/ Report("C12", "C12_OthersProceed", <<"status write not attempted after a child failed">>))
 \* once faults stop the cluster converges to the fault-free state (uses the C01 fixpoint oracle)
 C12_Recovers ==
   (IsEv("End") /\ HasExpect("fix") /\ HasExpect("faulty"))
@@ -532,7 +532,7 @@ Put(e) == IF e.post = e.pre THEN store ELSE (Key(e) :> e.post) @@ store
 \* failures that are not one of the documented benign races
 NonBenign(e, c) ==
   /\ ~Accepted(e)
-  /\ \/ e.code \in {0, 410, 422, 500, 503}
+  /\ \/ e.code \in {0, 422, 500, 503}
      \/ (e.code = 409 /\ e.verb = "delete")
 
 CtxAfterReq(c, e) ==
@@ -569,6 +569,7 @@ CtxAfterReq(c, e) ==
                          ELSE IF isParentGet THEN FALSE ELSE @,
         !.statusPuts = IF parentPut /\ c.nHooks > 0 THEN @ + 1 ELSE @,
         !.parentChanged = @ \/ (parentPut /\ Accepted(e) /\ e.post # e.pre),
+        !.parentReqsAfterHook = IF IsParentReq(e, c) /\ c.nHooks > 0 THEN @ + 1 ELSE @,
         !.wrote = @ \/ (e.verb # "get" /\ e.post # e.pre),
         !.failedReqs = IF ~Accepted(e) THEN Append(@, <<e.verb, e.kind, e.name, e.code>>) ELSE @ ]
 
